@@ -279,6 +279,9 @@ def gen_case(seed, run, tier):
         for m in ("true", "false", "none"):
             calls.append({"mode": m, "dup": False})
     enum = {"torn": 24 if run % 10 else "all", "pairs": 0 if tier == "quick" else 6, "fseed": rf.randrange(1 << 30)}
+    if tier == "thorough":
+        enum["torn"] = "all" if run % 3 == 0 else 64
+        enum["later"] = 40
     if variant == "big":
         enum["torn"] = 2
         enum["minimal"] = True
